@@ -103,7 +103,10 @@ func sendOrder(e *Env) {
 	nSenders := 1 + g.W(2, 3, 3, 2, 2, 1, 1, 1)
 	drain := g.Intn(4) // 0 fast, 1 slow, 2 bursts, 3 very slow start
 	ping := []time.Duration{0, 0, 2 * time.Second, 30 * time.Second}[g.Intn(4)]
-	s := startSession(e, ClientOpts{Nick: "me", Flood: true, PingFreq: ping, Track: g.Pct(30)}, func(l *simnet.Link) {
+	// the dial timeout is a knob that must not matter to an established
+	// connection, however long the server stalls
+	timeout := []time.Duration{0, 0, 2 * time.Second, 10 * time.Second, 30 * time.Second}[g.Intn(5)]
+	s := startSession(e, ClientOpts{Nick: "me", Flood: true, PingFreq: ping, Track: g.Pct(30), Timeout: timeout}, func(l *simnet.Link) {
 		l.ChunkMode = g.Intn(4)
 		l.Window = []int{0, 0, 40, 200, 2000}[g.Intn(5)]
 	})
@@ -114,7 +117,7 @@ func sendOrder(e *Env) {
 			simrt.Sleep(time.Duration(e.S.Choose(50)) * time.Millisecond)
 		case 2:
 			if burstLeft == 0 {
-				simrt.Sleep(time.Duration(1+e.S.Choose(20)) * time.Second)
+				simrt.Sleep(time.Duration(1+e.S.Choose(20)) * time.Second * time.Duration(1+e.S.Choose(4)))
 				burstLeft = 1 + e.S.Choose(60)
 			}
 			burstLeft--
